@@ -59,7 +59,9 @@ class Acc:
         canon = pauli.canonical_group(gens, n)
         trivial = (orbit == lc.graph_form(gens, n) and all(g[0] == 0 for g in gens)
                    and canon == pauli.canonical_group(lc.graph_state_gens(n, orbit), n))
-        rep.case(None if trivial else (n, canon))
+        rep.case(None if trivial else (n, canon),
+                 {"n": n, "strings": case["strings"], "source": source, "library_id": cid, "oracle_orbit": orbit}
+                 if (not trivial and len(rep.samples) < 1) else None)
         rep.count("groups_per_n_and_source", f"n={n}:{source}")
         if rng is not None:
             g2 = members.random_basis_change(gens, rng, steps=3 * n)
